@@ -1,5 +1,9 @@
 //! Quiet panic hook that records "message @ file:line" per thread.
 use std::cell::RefCell;
+use std::sync::OnceLock;
+
+/// property whose check is running (for a verdict straight from the panic hook, see below)
+pub static CURRENT_PROP: OnceLock<String> = OnceLock::new();
 
 thread_local! {
     static LAST: RefCell<String> = const { RefCell::new(String::new()) };
@@ -24,6 +28,33 @@ pub fn install() {
             if !injected && !raw_loc.starts_with("/repo/") && !raw_loc.starts_with("/rustc/") && !raw_loc.contains(".cargo/registry") {
                 // not the crate under test: a bug in the harness itself must never be silent
                 eprintln!("HARNESS PANIC: {} @ {}:{}", msg, raw_loc, info.location().map(|l| l.line()).unwrap_or(0));
+            }
+            if (msg.contains("null pointer dereference occurred") || msg.contains("misaligned pointer dereference")) && raw_loc.starts_with("/repo/") {
+                // rustc's debug-assertion UB checks fire with a non-unwinding panic, i.e. the process is
+                // about to abort. The dereference is in the crate under test, reached through its safe API:
+                // that is a memory-safety failure of the crate and no operation outcome any property allows.
+                if let Some(prop) = CURRENT_PROP.get() {
+                    let dir = format!("{}/replays/{}", crate::check::VERIF, prop);
+                    let _ = std::fs::create_dir_all(&dir);
+                    let path = format!("{}/ub-check-abort.json", dir);
+                    let body = format!(
+                        "{{\"property\":\"{}\",\"check\":\"no_undefined_behaviour_abort\",\"detail\":\"{} @ {}:{} (rustc debug-assertion UB check inside the crate; the explorer only uses the safe API)\",\"case\":{{\"engine\":\"crash\"}}}}\n",
+                        prop,
+                        msg.replace('"', "'"),
+                        raw_loc,
+                        info.location().map(|l| l.line()).unwrap_or(0)
+                    );
+                    let _ = std::fs::write(&path, body);
+                    println!("VIOLATION property={} replay={}", prop, path);
+                    println!("  check=no_undefined_behaviour_abort: {} @ {}:{}", msg, raw_loc, info.location().map(|l| l.line()).unwrap_or(0));
+                    use std::io::Write;
+                    let _ = std::io::stdout().flush();
+                    std::process::exit(1);
+                }
+            }
+            if msg.contains("unsafe precondition") || msg.contains("cannot unwind") || std::env::var_os("MC_DEBUG_PANICS").is_some() {
+                // such a panic aborts the process: say what it was before it does
+                eprintln!("PANIC: {} @ {}:{}", msg, raw_loc, info.location().map(|l| l.line()).unwrap_or(0));
             }
             let loc = info.location().map(|l| format!("{}:{}", l.file().trim_start_matches("/repo/"), l.line())).unwrap_or_default();
             LAST.with(|l| *l.borrow_mut() = format!("{} @ {}", msg, loc));
